@@ -113,11 +113,26 @@ func callRecv(in ssa.Instruction) ssa.Value {
 	return nil
 }
 
-func allInstrs(fn *ssa.Function, f func(ssa.Instruction)) {
+func allInstrsShallow(fn *ssa.Function, f func(ssa.Instruction)) {
 	for _, b := range fn.Blocks {
 		for _, in := range b.Instrs {
 			f(in)
 		}
+	}
+}
+
+// allInstrs visits fn's own instructions (not its closures', not its helpers'); allInstrsNew also
+// visits the helpers fn calls that the reference tree does not have (a body split into phases is still
+// the body; canon.go).
+func allInstrs(fn *ssa.Function, f func(ssa.Instruction)) { allInstrsShallow(fn, f) }
+
+func allInstrsNew(fn *ssa.Function, f func(ssa.Instruction)) {
+	allInstrsShallow(fn, f)
+	if len(gNewFuncs) == 0 {
+		return
+	}
+	for _, h := range newHelpersOf(fn) {
+		allInstrsShallow(h, f)
 	}
 }
 
@@ -139,11 +154,58 @@ func withClosures(fn *ssa.Function) []*ssa.Function {
 	return append([]*ssa.Function{fn}, closuresOf(fn)...)
 }
 
+// outermost: the named function a closure belongs to — and, for a helper the reference tree does not
+// have (canon.go), the one reference function all of its uses lead back to: code that a refactoring moved
+// into a new helper, method or phase still "belongs" to the function it was taken from when a rule asks
+// who does something (who writes the credential, who moves a workspace, who calls Plot).
 func outermost(fn *ssa.Function) *ssa.Function {
 	for fn.Parent() != nil {
 		fn = fn.Parent()
 	}
+	if len(gNewFuncs) > 0 && gNewFuncs[fn] {
+		if o := ownerOfNew(fn, 4); o != nil {
+			return o
+		}
+	}
 	return fn
+}
+
+func lexicalOutermost(fn *ssa.Function) *ssa.Function {
+	for fn.Parent() != nil {
+		fn = fn.Parent()
+	}
+	return fn
+}
+
+// ownerOfNew: the single reference function from which every use (static call, `go`, defer, method
+// value) of new function fn is reached, following users that are new functions themselves; nil if the
+// uses lead to more than one reference function or to none.
+func ownerOfNew(fn *ssa.Function, depth int) *ssa.Function {
+	if depth == 0 {
+		return nil
+	}
+	var owner *ssa.Function
+	users := gUsersOf[fn]
+	if len(users) == 0 {
+		return nil
+	}
+	for _, u := range users {
+		u = lexicalOutermost(u)
+		if u == fn {
+			continue
+		}
+		if gNewFuncs[u] {
+			u = ownerOfNew(u, depth-1)
+			if u == nil {
+				return nil
+			}
+		}
+		if owner != nil && owner != u {
+			return nil
+		}
+		owner = u
+	}
+	return owner
 }
 
 // ---------------------------------------------------------------------------------------------
@@ -200,14 +262,6 @@ func reach(fn *ssa.Function, start ssa.Instruction, cut func(from, to *ssa.Basic
 		b    *ssa.BasicBlock
 		from int
 	}
-	reachedFrom := map[*ssa.BasicBlock]int{} // smallest index from which block scanned
-	var work []item
-	if start != nil && start.Parent() != fn {
-		// a start point inside a new helper: continue from the helper's call site in fn
-		if s2 := siteIn(fn, start); s2 != nil && s2.Parent() == fn {
-			start = s2
-		}
-	}
 	if stop != nil {
 		// a call of a new helper that performs the stopping step on every path to its (successful) return
 		// stops the walk like the step itself
@@ -243,53 +297,54 @@ func reach(fn *ssa.Function, start ssa.Instruction, cut func(from, to *ssa.Basic
 			return v
 		}
 	}
-	if start == nil {
-		if len(fn.Blocks) == 0 {
-			return func(ssa.Instruction) bool { return false }
-		}
-		work = append(work, item{fn.Blocks[0], 0})
-	} else {
-		p := instrIndex(start)
-		work = append(work, item{p.b, p.i + 1})
-	}
 	// reachable[b] = (from, until) ranges; we store for each block the minimal from and the index where scan stopped
 	type rng struct{ from, until int }
-	ranges := map[*ssa.BasicBlock][]rng{}
-	for len(work) > 0 {
-		it := work[len(work)-1]
-		work = work[:len(work)-1]
-		if prev, ok := reachedFrom[it.b]; ok && prev <= it.from {
-			continue
-		}
-		reachedFrom[it.b] = it.from
-		until := len(it.b.Instrs)
-		stopped := false
-		for i := it.from; i < len(it.b.Instrs); i++ {
-			if stop != nil && stop(it.b.Instrs[i]) {
-				until = i
-				stopped = true
-				break
+	type ranges map[*ssa.BasicBlock][]rng
+	walkFrom := func(f *ssa.Function, start ssa.Instruction) ranges {
+		out := ranges{}
+		reachedFrom := map[*ssa.BasicBlock]int{} // smallest index from which block scanned
+		var work []item
+		if start == nil {
+			if len(f.Blocks) == 0 {
+				return out
 			}
+			work = append(work, item{f.Blocks[0], 0})
+		} else {
+			p := instrIndex(start)
+			work = append(work, item{p.b, p.i + 1})
 		}
-		ranges[it.b] = append(ranges[it.b], rng{it.from, until})
-		if stopped {
-			continue
-		}
-		for _, s := range it.b.Succs {
-			if cut != nil && cut(it.b, s) {
+		for len(work) > 0 {
+			it := work[len(work)-1]
+			work = work[:len(work)-1]
+			if prev, ok := reachedFrom[it.b]; ok && prev <= it.from {
 				continue
 			}
-			work = append(work, item{s, 0})
-		}
-	}
-	return func(in ssa.Instruction) bool {
-		if in.Parent() != fn && outermost(in.Parent()) != outermost(fn) {
-			if s2 := siteIn(fn, in); s2 != nil {
-				in = s2
+			reachedFrom[it.b] = it.from
+			until := len(it.b.Instrs)
+			stopped := false
+			for i := it.from; i < len(it.b.Instrs); i++ {
+				if stop != nil && stop(it.b.Instrs[i]) {
+					until = i
+					stopped = true
+					break
+				}
+			}
+			out[it.b] = append(out[it.b], rng{it.from, until})
+			if stopped {
+				continue
+			}
+			for _, s := range it.b.Succs {
+				if cut != nil && cut(it.b, s) {
+					continue
+				}
+				work = append(work, item{s, 0})
 			}
 		}
+		return out
+	}
+	inRanges := func(rs ranges, in ssa.Instruction) bool {
 		p := instrIndex(in)
-		for _, r := range ranges[p.b] {
+		for _, r := range rs[p.b] {
 			// the stopping instruction itself counts as reached (until inclusive) so that
 			// callers can ask "is this sink reached"; instructions after it are not.
 			if p.i >= r.from && p.i <= r.until {
@@ -298,6 +353,103 @@ func reach(fn *ssa.Function, start ssa.Instruction, cut func(from, to *ssa.Basic
 		}
 		return false
 	}
+	// uniqueSite: the single call site of a top-level helper the reference tree does not have
+	uniqueSite := func(g *ssa.Function) ssa.Instruction {
+		if g == nil || g.Parent() != nil || !gNewFuncs[g] || len(gCallSitesOf[g]) != 1 {
+			return nil
+		}
+		if cs := gCallSitesOf[g][0]; cs.Common().StaticCallee() == g {
+			if _, isGo := cs.(*ssa.Go); !isGo {
+				if _, isDefer := cs.(*ssa.Defer); !isDefer {
+					return cs
+				}
+			}
+		}
+		return nil
+	}
+	direct := map[*ssa.Function]ranges{} // walks from the start point through the helpers it sits in
+	walkedFn := true
+	if start != nil && start.Parent() != fn {
+		// a start point inside a new helper: walk the helper from the start point; only if one of its
+		// returns is reached does the walk continue behind the helper's call site (and so on outwards)
+		cur := start
+		levelled := false
+		if s2 := siteIn(fn, start); s2 != nil && s2.Parent() == fn {
+			levelled = true
+			for depth := 0; depth < 4 && cur.Parent() != fn; depth++ {
+				g := cur.Parent()
+				site := uniqueSite(g)
+				if site == nil {
+					levelled = false
+					break
+				}
+				rg := walkFrom(g, cur)
+				direct[g] = rg
+				exit := false
+				for _, ret := range returnsOf(g) {
+					if inRanges(rg, ret) {
+						exit = true
+					}
+				}
+				if !exit {
+					walkedFn = false
+					break
+				}
+				cur = site
+			}
+			if levelled && walkedFn && cur.Parent() != fn {
+				levelled = false
+			}
+			if !levelled {
+				// closures, several call sites: continue from the helper's call site in fn
+				direct = map[*ssa.Function]ranges{}
+				walkedFn = true
+				cur = s2
+			}
+		}
+		start = cur
+	}
+	fnRanges := ranges{}
+	if walkedFn {
+		if start == nil && len(fn.Blocks) == 0 {
+			return func(ssa.Instruction) bool { return false }
+		}
+		if start == nil || start.Parent() == fn {
+			fnRanges = walkFrom(fn, start)
+		}
+	}
+	entry := map[*ssa.Function]ranges{}
+	var query func(in ssa.Instruction, depth int) bool
+	query = func(in ssa.Instruction, depth int) bool {
+		g := in.Parent()
+		if g == fn {
+			return inRanges(fnRanges, in)
+		}
+		if rg, ok := direct[g]; ok && inRanges(rg, in) {
+			return true
+		}
+		if lexicalOutermost(g) == lexicalOutermost(fn) {
+			return inRanges(fnRanges, in)
+		}
+		if site := uniqueSite(g); site != nil && depth > 0 {
+			// an instruction of a helper executes when the helper's call is reached and the walk from the
+			// helper's entry reaches it
+			if !query(site, depth-1) {
+				return false
+			}
+			rg, ok := entry[g]
+			if !ok {
+				rg = walkFrom(g, nil)
+				entry[g] = rg
+			}
+			return inRanges(rg, in)
+		}
+		if s2 := siteIn(fn, in); s2 != nil && s2.Parent() == fn {
+			return inRanges(fnRanges, s2)
+		}
+		return inRanges(fnRanges, in)
+	}
+	return func(in ssa.Instruction) bool { return query(in, 4) }
 }
 
 // ---------------------------------------------------------------------------------------------
@@ -361,7 +513,7 @@ func rootCell(v ssa.Value) ssa.Value {
 			}
 		}
 		var bound ssa.Value
-		allInstrs(par, func(in ssa.Instruction) {
+		allInstrsShallow(par, func(in ssa.Instruction) {
 			if mc, ok := in.(*ssa.MakeClosure); ok && mc.Fn == fn && idx >= 0 && idx < len(mc.Bindings) {
 				bound = mc.Bindings[idx]
 			}
@@ -388,7 +540,7 @@ func reachingDefs(fn *ssa.Function) *rdInfo {
 	info := &rdInfo{loads: map[*ssa.UnOp][]ssa.Instruction{}, fromEntry: map[*ssa.UnOp]bool{}}
 	// collect cells
 	cells := map[ssa.Value]bool{}
-	allInstrs(fn, func(in ssa.Instruction) {
+	allInstrsShallow(fn, func(in ssa.Instruction) {
 		switch x := in.(type) {
 		case *ssa.Store:
 			if c := cellOf(x.Addr); c != nil {
@@ -409,7 +561,7 @@ func reachingDefs(fn *ssa.Function) *rdInfo {
 	closureStores := map[ssa.Value][]ssa.Instruction{}
 	capturedBy := map[ssa.Value][]*ssa.Function{}
 	for _, cl := range closuresOf(fn) {
-		allInstrs(cl, func(in ssa.Instruction) {
+		allInstrsShallow(cl, func(in ssa.Instruction) {
 			if st, ok := in.(*ssa.Store); ok {
 				if fv, ok := st.Addr.(*ssa.FreeVar); ok {
 					r := rootCell(fv)
@@ -794,7 +946,7 @@ func valueOrigins(fn *ssa.Function, v ssa.Value, f func(root ssa.Value)) {
 								if g == y.Parent() {
 									continue
 								}
-								allInstrs(g, func(in ssa.Instruction) {
+								allInstrsShallow(g, func(in ssa.Instruction) {
 									if st, ok := in.(*ssa.Store); ok && rootCell(st.Addr) == root {
 										n++
 										rec(st.Val)
@@ -809,6 +961,57 @@ func valueOrigins(fn *ssa.Function, v ssa.Value, f func(root ssa.Value)) {
 						}
 					}
 					return
+				}
+			}
+			f(x)
+		case *ssa.Parameter:
+			// a parameter of a helper the reference tree does not have stands for the arguments of its
+			// call sites (canon.go)
+			if h := y.Parent(); h != nil && h.Parent() == nil && gNewFuncs[h] && len(gCallSitesOf[h]) > 0 {
+				idx := -1
+				for i, q := range h.Params {
+					if q == y {
+						idx = i
+					}
+				}
+				done := false
+				for _, s := range gCallSitesOf[h] {
+					if args := s.Common().Args; idx >= 0 && idx < len(args) && s.Common().StaticCallee() == h {
+						rec(args[idx])
+						done = true
+					}
+				}
+				if done {
+					return
+				}
+			}
+			f(x)
+		case *ssa.Call:
+			if h := y.Call.StaticCallee(); h != nil && gNewFuncs[h] && h.Signature.Results().Len() == 1 && len(h.Blocks) > 0 && !isErrorType(y.Type()) {
+				for _, ret := range returnsOf(h) {
+					if len(ret.Results) == 1 {
+						rec(ret.Results[0])
+					}
+				}
+				return
+			}
+			f(x)
+		case *ssa.Extract:
+			if cl, ok := y.Tuple.(*ssa.Call); ok {
+				if h := cl.Call.StaticCallee(); h != nil && gNewFuncs[h] && len(h.Blocks) > 0 && !isErrorType(y.Type()) {
+					n := 0
+					for _, ret := range returnsOf(h) {
+						if y.Index < len(ret.Results) {
+							if k, isK := ret.Results[y.Index].(*ssa.Const); isK && k.IsNil() {
+								continue
+							}
+							rec(ret.Results[y.Index])
+							n++
+						}
+					}
+					if n > 0 {
+						return
+					}
 				}
 			}
 			f(x)
